@@ -151,6 +151,7 @@ REG['C11'] = {
         dict(id='c11_k_season_next', fn='SolarSeason::next', clause='4*year+index moves by exactly n'),
         dict(id='c11_k_month_next', fn='SolarMonth::next', clause='12*year+month-1 moves by exactly n'),
         dict(id='c06_k_next', fn='SolarTerm::next', clause='24*year+index moves by exactly n'),
+        dict(id='c08_k_month_next', thorough_only=True, fn='SixtyCycleMonth::next', clause='12*year + index moves by exactly n (|n| <= 300)'),
         dict(id='c11_k_jd_next', thorough_only=True, fn='JulianDay::next / subtract', clause='f64 addition of n days is exact for |n| < 2^31 on half-integral dates'),
     ],
     'V': [
@@ -246,6 +247,7 @@ def _leaf_only(text):
 
 REG['C08'] = {
     'K': [dict(id='c08_k_first_month_args', fn='SixtyCycleYear::get_first_month', clause='stem index fed to the name lookup == Five-Tigers stem of the year stem, every year -1..9999 (index-faithful cheap constructors)'),
+          dict(id='c08_k_month_next', thorough_only=True, fn='SixtyCycleMonth::next / get_index_in_year', clause='12*year + index moves by exactly n and the pillar by n, every month and |n| <= 300 (wider n: solver budget)'),
           dict(id='c08_k_month_pillar_args', fn='LunarMonth::get_sixty_cycle', clause='branch index == 2 + position, stem index == Five-Tigers stem + position (mod 10/12), every year and position')],
     'level': 'other',
     'design_ref': '5/C08',
